@@ -280,36 +280,7 @@ def sanitizer_requests(rng, n):
 
 
 def run_tool(name, cmd, env, reqs, wdir, timeout):
-    """Run the probe under a tool on `reqs`; judge values too. Returns dict."""
-    os.makedirs(wdir, exist_ok=True)
-    reqfile = os.path.join(wdir, name + ".req")
-    outfile = os.path.join(wdir, name + ".out")
-    open(reqfile, "w").write("\n".join(reqs) + "\n")
-    t0 = time.time()
-    try:
-        p = subprocess.run(cmd + [reqfile, outfile], env=env, stdout=subprocess.PIPE, stderr=subprocess.PIPE,
-                           timeout=timeout, text=True, cwd=B.DRIVER)
-    except subprocess.TimeoutExpired:
-        return {"tool": name, "status": "inconclusive", "why": "watchdog after %ds" % timeout}
-    res = {"tool": name, "requests": len(reqs), "wall_s": round(time.time() - t0, 1), "exit": p.returncode}
-    rep = E.classify_tool_output(p.stderr)
-    if rep is not None:
-        if rep["kind"] == "miri-unsupported":
-            res.update(status="inconclusive", why="tool: unsupported operation", report=rep["snippet"][:800])
-        else:
-            res.update(status="violation" if rep["in_repo"] else "foreign-report", kind=rep["kind"], report=rep["snippet"][:2000])
-        return res
-    if p.returncode != 0:
-        res.update(status="inconclusive", why="tool exited with %d: %s" % (p.returncode, p.stderr[-500:]))
-        return res
-    out_lines = open(outfile).read().split("\n")
-    if out_lines and out_lines[-1] == "":
-        out_lines.pop()
-    st = E.Stats()
-    E.judge_batch(sys.modules[__name__], reqs, out_lines, name, st)
-    res.update(status="ok" if not st.violations and not st.errors else ("violation" if st.violations else "inconclusive"),
-               events=st.evaluations, value_violations=st.violations[:3], errors=st.errors[:2])
-    return res
+    return E.run_tool(sys.modules[__name__], name, cmd, env, reqs, wdir, timeout)
 
 
 def main(tier, seed):
@@ -347,26 +318,7 @@ def main(tier, seed):
         rel = B.build("release", ())
         tools.append(run_tool("memcheck", ["valgrind", "--error-exitcode=78", "-q", rel], dict(os.environ),
                               sanitizer_requests(rng, 30000), wdir, 3000))
-    ev["coverage"]["tool_runs"] = tools
-    bad = [t for t in tools if t["status"] == "violation"]
-    inconc = [t for t in tools if t["status"] == "inconclusive"]
-    ev["coverage"]["evaluations"] += sum(t.get("events", 0) for t in tools)
-    if bad and code != 1:
-        rp = os.path.join(B.ROOT, "replays", "C06-%s-%s-%d.req" % (bad[0]["tool"], tier, seed))
-        src = os.path.join(wdir, bad[0]["tool"] + ".req")
-        with open(rp, "w") as f:
-            f.write("# property C06\n# tool %s\n# %s\n" % (bad[0]["tool"], str(bad[0].get("report", bad[0].get("value_violations")))[:1500].replace("\n", "\n# ")))
-            f.write(open(src).read())
-        print("  %s report: %s" % (bad[0]["tool"], str(bad[0].get("report", bad[0].get("value_violations")))[-600:]))
-        print("VIOLATION property=C06 replay=%s" % rp)
-        code = 1
-        ev["verdict"] = "violated"
-        ev["violations"] = ev.get("violations", 0) + len(bad)
-    elif inconc and code == 0:
-        print("INCONCLUSIVE property=C06 tool run: %s" % inconc[0])
-        code = 3
-        ev["verdict"] = "inconclusive"
+    code = E.fold_tool_runs(ID, code, ev, tools, wdir, tier, seed)
     ev["wall_s"] = round(time.time() - t0, 2)
     E.write_evidence(ID, ev)
-    print("C06 tool runs: " + ", ".join("%s=%s(%s events, %ss)" % (t["tool"], t["status"], t.get("events", "-"), t.get("wall_s", "-")) for t in tools))
     return code
